@@ -219,7 +219,33 @@ func (in *usInst) step(l []entry, full bool, perms *int) (string, string) {
 				return keyUSErr, err.Error()
 			}
 			if g := snapSet(o4.Validators); g != gotVal || snapSet(o4.LastValidators) != inVal || o4.LastHeightValidatorsChanged != out.LastHeightValidatorsChanged {
-				return keyUSReload, fmt.Sprintf("status with validators %s: %s gives next validators %s, but %s when the status went through SaveStatus/LoadStatus first", inVal, listName(l), gotVal, g)
+				return keyUSReload, fmt.Sprintf("status with validators %s: %s gives next validators %s / last validators %s, but %s / %s when the status went through SaveStatus/LoadStatus first", inVal, listName(l), gotVal, inVal, g, snapSet(o4.LastValidators))
+			}
+			// ... and hands a Copy() of it to the consensus state (node.go), whose sets are then used cold
+			in.st = loaded.Copy()
+			o5, err := in.call(l, nil)
+			in.st = mem
+			*perms++
+			if err != nil {
+				return keyUSErr, err.Error()
+			}
+			if g := snapSet(o5.Validators); g != gotVal || snapSet(o5.LastValidators) != inVal {
+				return keyUSReload, fmt.Sprintf("status with validators %s: %s gives next validators %s / last validators %s, but %s / %s on a Copy() of the reloaded status", inVal, listName(l), gotVal, inVal, g, snapSet(o5.LastValidators))
+			}
+			// the next set must behave the same whichever status it came from: total and the next rotations
+			for i, o := range []consensus.NewStatus{o4, o5} {
+				name := []string{"reloaded", "copy of reloaded"}[i]
+				a, b := out.Validators.Copy(), o.Validators
+				if a.TotalVotingPower() != b.TotalVotingPower() {
+					return keyLazyTotal, fmt.Sprintf("next validators %s: TotalVotingPower %d from the in-memory status, %d from the %s status", gotVal, a.TotalVotingPower(), b.TotalVotingPower(), name)
+				}
+				for j := 1; j <= coldRotations; j++ {
+					a.IncrementAccum(1)
+					b.IncrementAccum(1)
+					if snapSet(a) != snapSet(b) {
+						return keyLazyRot, fmt.Sprintf("next validators %s, rotation #%d: %s from the in-memory status, %s from the %s status", gotVal, j, snapSet(a), snapSet(b), name)
+					}
+				}
 			}
 		}
 		// the result must not share mutable state with its input: rotate throw-away results, look at the input
